@@ -100,13 +100,15 @@ Inductive res := Ok | ENotFound | EExists | EHang.
 (* fixF1/F3/F4/F13: the repairs of DESIGN section 6; fixStale: resolver.Memory.Tag forgets a
    moved reference in the old tag set; fixLeaf: Delete does not queue dangling leaves that
    were never stored; skipLinked: a rejected *variant* of Delete that queues a referrer only
-   when all its predecessors are already queued (see C09_delete_skip_linked_refuted). *)
+   when all its predecessors are already queued (see C09_delete_skip_linked_refuted);
+   fixHold: Delete queues a referrer of a deleted manifest only once no surviving node lists
+   it any more (predecessors that are referrers of its own do not hold it). *)
 Record cfg := { fixF1 : bool; fixF3 : bool; fixF4 : bool; fixF13 : bool;
-                fixStale : bool; fixLeaf : bool; skipLinked : bool }.
+                fixStale : bool; fixLeaf : bool; skipLinked : bool; fixHold : bool }.
 Definition cfg_fixed : cfg := {| fixF1 := true; fixF3 := true; fixF4 := true; fixF13 := true;
-     fixStale := true; fixLeaf := true; skipLinked := false |}.
+     fixStale := true; fixLeaf := true; skipLinked := false; fixHold := true |}.
 Definition cfg_orig : cfg := {| fixF1 := false; fixF3 := false; fixF4 := false; fixF13 := false;
-     fixStale := false; fixLeaf := false; skipLinked := false |}.
+     fixStale := false; fixLeaf := false; skipLinked := false; fixHold := false |}.
 
 Inductive op :=
 | OPush (n : nat) | OTag (n t : nat) | OUntag (t : nat) | ODelete (n : nat)
@@ -189,11 +191,17 @@ Definition delete_one (st : state) (n : nat) : state * list nat * res :=
                 strays := strays st; autogc := autogc st |} in
   (st', dang, if memb n (blobs st) then Ok else ENotFound).
 
+(* Store.heldBySurvivor: a predecessor that is not queued and links to r other than as its
+   subject *)
+Definition held (g seen : list nat) (r : nat) : bool :=
+  existsb (fun p => negb (memb p seen) && negb (has_subject r p)) (preds g r).
+
 (* ---------- Store.Delete: the work queue ----------
    [seen] = everything ever queued (the repaired code queues a node once: F4);
+   [pending] = untagged referrers of deleted manifests that wait until nothing holds them;
    [ord k l] = the order in which Go's map iteration delivers the k-th batch. *)
 Fixpoint delete_loop (c : cfg) (ord : nat -> list nat -> list nat) (fuel k : nat)
-         (st : state) (queue seen : list nat) : state * res :=
+         (st : state) (queue seen pending : list nat) : state * res :=
   match fuel with
   | O => (st, EHang)
   | S fuel' =>
@@ -212,10 +220,15 @@ Fixpoint delete_loop (c : cfg) (ord : nat -> list nat -> list nat) (fuel k : nat
           if autogc st
           then filter (fun d => (negb (fixLeaf c) || memb d (blobs st')) && negb (is_tagged st' d)) dang
           else [] in
-        let batch := ord k (refs ++ dang') in
+        let batch := ord k ((if fixHold c then [] else refs) ++ dang') in
         let fresh :=
           if fixF4 c then dedup (filter (fun x => negb (memb x seen)) batch) else batch in
-        delete_loop c ord fuel' (S k) st' (q ++ fresh) (seen ++ fresh)
+        let seen1 := seen ++ fresh in
+        let pend1 := if fixHold c then pending ++ ord k refs else [] in
+        let cand := dedup (filter (fun r => negb (memb r seen1)) pend1) in
+        let ready := filter (fun r => negb (held (gnodes st') seen1 r)) cand in
+        let rest := filter (held (gnodes st') seen1) cand in
+        delete_loop c ord fuel' (S k) st' (q ++ fresh ++ ready) (seen1 ++ ready) rest
       | (st', _, e) => (st', e)
       end
     end
@@ -224,7 +237,7 @@ Fixpoint delete_loop (c : cfg) (ord : nat -> list nat -> list nat) (fuel k : nat
 Definition delete_fuel (st : state) : nat := S (S (length (gnodes st))).
 
 Definition delete (c : cfg) (ord : nat -> list nat -> list nat) (st : state) (n : nat) : state * res :=
-  delete_loop c ord (if fixF4 c then delete_fuel st else 4096) 0 st [n] [n].
+  delete_loop c ord (if fixF4 c then delete_fuel st else 4096) 0 st [n] [n] [].
 
 (* ---------- graph.Memory.IndexAll: nodes reachable through stored content ----------
    successors have smaller ids than their node (content addressing), so [k] >= n is
